@@ -619,6 +619,11 @@ fn complete_migration(heights: &[u32]) -> MigrationState {
 
 const OWNER: [u8; 32] = [0x5a; 32];
 
+fn standalone_keys() -> Vec<secp256k1::PublicKey> {
+    let secp = secp256k1::Secp256k1::new();
+    (1u8..=3).map(|i| secp256k1::PublicKey::from_secret_key(&secp, &secp256k1::SecretKey::from_slice(&[i; 32]).unwrap())).collect()
+}
+
 fn ops() -> Vec<OpDef> {
     let mut v: Vec<OpDef> = vec![];
     let mut add = |method: &'static str, label: &'static str, run: OpFn| v.push(OpDef { method, label, run });
@@ -744,6 +749,23 @@ fn ops() -> Vec<OpDef> {
     add("PoolMigrations::replace_migration", "mig_replace", Box::new(|c, x, _rs| {
         let mut pm = PoolMigrations::for_account(x.world.net, clock(), c, x.world.accts[0].id).map_err(|e| format!("{e:?}"))?;
         e(pm.replace_migration(&migration_state(MigrationStatus::InProgress, 3, Some(OWNER))))
+    }));
+    // a live migration whose never-broadcast transaction holds a note reservation (state S1: the
+    // Orchard notes of account 0 are locked under OWNER) becomes terminal and is persisted
+    for (label, status) in [("mig_supersede", MigrationStatus::Superseded), ("mig_fail", MigrationStatus::Failed), ("mig_cancelled", MigrationStatus::Cancelled)] {
+        add("PoolMigrations::replace_migration", label, Box::new(move |c, x, _rs| {
+            let mut pm = PoolMigrations::for_account(x.world.net, clock(), c, x.world.accts[0].id).map_err(|e| format!("{e:?}"))?;
+            e(pm.replace_migration(&migration_state(status, 3, Some(OWNER))))
+        }));
+    }
+    // a batch of three standalone transparent keys; in state S1 the third one is already imported
+    // into account 1, so the uninterrupted call is refused after the first two were written
+    add("WalletWrite::import_standalone_transparent_pubkeys", "import_pubkeys3", Box::new(|c, x, rs| {
+        e(wdb(c, x, rs).import_standalone_transparent_pubkeys(x.world.accts[0].id, &standalone_keys()))
+    }));
+    // releases the retained checkpoints of every pool's tree (state S1 retains one per pool)
+    add("WalletCommitmentTrees::remove_retained_checkpoints_below", "remove_retained", Box::new(|c, x, rs| {
+        e(wdb(c, x, rs).remove_retained_checkpoints_below(BlockHeight::from_u32(x.world.tip_height() + 100)))
     }));
     add("PoolMigrations::update_transaction", "mig_update", Box::new(|c, x, _rs| {
         let mut pm = PoolMigrations::for_account(x.world.net, clock(), c, x.world.accts[0].id).map_err(|e| format!("{e:?}"))?;
@@ -1636,6 +1658,19 @@ fn main() {
                     let op = opdefs.iter().find(|o| o.label == l).unwrap();
                     if let Err(er) = (op.run)(&mut c, &ctx, 77) {
                         env.stats.skipped.push(format!("setup:{l}:{}", &er[..er.len().min(120)]));
+                    }
+                }
+                {
+                    let mut db = wdb(&mut c, &ctx, 77);
+                    if let Err(er) = db.import_standalone_transparent_pubkey(ctx.world.accts[1].id, standalone_keys()[2]) {
+                        env.stats.skipped.push(format!("setup:import_pubkey:{er:?}"));
+                    }
+                    let h = BlockHeight::from_u32(BASE + 1);
+                    type TE = shardtree::error::ShardTreeError<zcash_client_sqlite::wallet::commitment_tree::Error>;
+                    let r1 = db.with_sapling_tree_mut::<_, _, TE>(|t| t.ensure_retained(h).map(|_| ()));
+                    let r2 = db.with_orchard_tree_mut::<_, _, TE>(|t| t.ensure_retained(h).map(|_| ()));
+                    if r1.is_err() || r2.is_err() {
+                        env.stats.skipped.push(format!("setup:ensure_retained:{r1:?}/{r2:?}"));
                     }
                 }
             } else {
